@@ -883,19 +883,22 @@ class Network:
             }
         )
 
-        # Send the connect to peer message
-        await self.server_connection.send_message(
-            ConnectToPeer.Request(ticket, username, typ))
-
         futures = (expected_connection_future, cannot_connect_future)
-        done, pending = await asyncio.wait(
-            futures,
-            timeout=PEER_INDIRECT_CONNECT_TIMEOUT,
-            return_when=asyncio.FIRST_COMPLETED
-        )
+        try:
+            # Send the connect to peer message
+            await self.server_connection.send_message(
+                ConnectToPeer.Request(ticket, username, typ))
 
-        # Whatever happens here, we can cancel all pending futures
-        [fut.cancel() for fut in pending]
+            done, pending = await asyncio.wait(
+                futures,
+                timeout=PEER_INDIRECT_CONNECT_TIMEOUT,
+                return_when=asyncio.FIRST_COMPLETED
+            )
+
+        finally:
+            # Whatever happens here (also a cancellation or a failed send), we
+            # can cancel all pending futures
+            [fut.cancel() for fut in futures if not fut.done()]
 
         # `done` will be empty in case of timeout
         if not done:
